@@ -175,6 +175,13 @@ func init() {
 			fr.i.ps.notes = append(fr.i.ps.notes, msg)
 			return nil
 		},
+		// TranscriptLeak(tag, r0, r1, transcript): decides, for every pair of 16-byte windows
+		// (at EVERY byte offset) of the transcript and for every single window, whether
+		// w_i xor w_j == R (resp. w_i == R) holds for all randomness.  Such a pair is a leak.
+		"TranscriptLeak": func(fr *frame, args []value) value {
+			fr.i.transcriptLeak(strArg(args[0]), args[1], args[2], args[3].([]value))
+			return nil
+		},
 		"Bound": func(fr *frame, args []value) value {
 			fr.i.ps.bounds = appendUnique(fr.i.ps.bounds, strArg(args[0]))
 			return nil
@@ -881,4 +888,175 @@ func firstDiff(tt *TermTable, a, b *Term, depth int) string {
 		}
 	}
 	return "same shape, different ids?"
+}
+
+func (i *interpreter) transcriptLeak(tag string, r0v, r1v value, tr []value) {
+	tt := i.tt
+	ps := i.ps
+	r0, _ := i.termOf(r0v)
+	r1, _ := i.termOf(r1v)
+	n := len(tr) - 15
+	if n <= 0 {
+		return
+	}
+	bytesT := make([]*Term, len(tr))
+	for k, b := range tr {
+		bytesT[k], _ = i.termOf(b)
+	}
+	hi := make([]*Term, n)
+	lo := make([]*Term, n)
+	for k := 0; k < n; k++ {
+		var h, l *Term
+		for b := 0; b < 8; b++ {
+			h = tt.Concat(h, bytesT[k+b])
+			l = tt.Concat(l, bytesT[k+8+b])
+		}
+		hi[k], lo[k] = h, l
+	}
+	// random concrete interpretations consistent with the path condition
+	const M = 3
+	type interp struct {
+		env  map[string]uint64
+		memo map[int]uint64
+		ok   bool
+	}
+	its := make([]*interp, M)
+	seed := uint64(0x243F6A8885A308D3)
+	next := func() uint64 {
+		seed ^= seed << 13
+		seed ^= seed >> 7
+		seed ^= seed << 17
+		return seed
+	}
+	// variables the path condition talks about keep the values of one solver model of it;
+	// every other variable (and the uninterpreted functions) is drawn at random
+	fixed := map[string]uint64{}
+	{
+		seen := map[int]bool{}
+		var pcVars []*Term
+		var walk func(t *Term)
+		walk = func(t *Term) {
+			if seen[t.ID] {
+				return
+			}
+			seen[t.ID] = true
+			if t.Op == OpVar {
+				pcVars = append(pcVars, t)
+			}
+			for _, a := range t.Args {
+				walk(a)
+			}
+		}
+		for _, c := range ps.pc {
+			walk(c)
+		}
+		if len(pcVars) > 0 {
+			res, model := ps.wk.solver.Check(ps.pc, pcVars)
+			if res == Sat {
+				for _, v := range pcVars {
+					fixed[v.Name] = model[v.ID]
+				}
+			}
+		}
+	}
+	for m := 0; m < M; m++ {
+		it := &interp{env: map[string]uint64{"\x00uf-salt": next()}, memo: map[int]uint64{}, ok: true}
+		for _, v := range ps.nondetVars {
+			if f, ok := fixed[v.Name]; ok {
+				it.env[v.Name] = f
+			} else {
+				it.env[v.Name] = next() & maskB(v.W)
+			}
+		}
+		for _, c := range ps.pc {
+			v, ok := tt.Eval(c, it.env, it.memo)
+			if !ok || v != 1 {
+				it.ok = false
+				debugf("transcriptLeak: interpretation %d violates path conjunct %s (evaluable=%v)\n", m, tt.show(c, 5), ok)
+				break
+			}
+		}
+		its[m] = it
+	}
+	type wv struct{ h, l [M]uint64 }
+	vals := make([]wv, n)
+	var rv wv
+	nOK := 0
+	for m := 0; m < M; m++ {
+		if !its[m].ok {
+			continue
+		}
+		nOK++
+		for k := 0; k < n; k++ {
+			vals[k].h[m], _ = tt.Eval(hi[k], its[m].env, its[m].memo)
+			vals[k].l[m], _ = tt.Eval(lo[k], its[m].env, its[m].memo)
+		}
+		rv.h[m], _ = tt.Eval(r0, its[m].env, its[m].memo)
+		rv.l[m], _ = tt.Eval(r1, its[m].env, its[m].memo)
+	}
+	refuted := func(a, b int) bool { // b < 0: single window vs R
+		for m := 0; m < M; m++ {
+			if !its[m].ok {
+				continue
+			}
+			var dh, dl uint64
+			if b < 0 {
+				dh, dl = vals[a].h[m]^rv.h[m], vals[a].l[m]^rv.l[m]
+			} else {
+				dh, dl = vals[a].h[m]^vals[b].h[m]^rv.h[m], vals[a].l[m]^vals[b].l[m]^rv.l[m]
+			}
+			if dh != 0 || dl != 0 {
+				return true
+			}
+		}
+		return false
+	}
+	pairs, bySolver := 0, 0
+	check := func(a, b int) {
+		pairs++
+		ps.obligations++
+		if refuted(a, b) {
+			ps.discharged++
+			return
+		}
+		var dh, dl *Term
+		if b < 0 {
+			dh, dl = tt.BV(OpBVXor, hi[a], r0), tt.BV(OpBVXor, lo[a], r1)
+		} else {
+			dh, dl = tt.BV(OpBVXor, tt.BV(OpBVXor, hi[a], hi[b]), r0), tt.BV(OpBVXor, tt.BV(OpBVXor, lo[a], lo[b]), r1)
+		}
+		differs := tt.Or(tt.Not(tt.Eq(dh, tt.Zero(64))), tt.Not(tt.Eq(dl, tt.Zero(64))))
+		what := fmt.Sprintf("%s: transcript offsets %d and %d differ by the global offset R for every randomness", tag, a, b)
+		if b < 0 {
+			what = fmt.Sprintf("%s: the global offset R itself is transmitted at transcript offset %d", tag, a)
+		}
+		if differs.IsFalse() {
+			ps.distinctObl++
+			ps.violations = append(ps.violations, ps.mkViolation("assert", what, map[int]uint64{}))
+			return
+		}
+		bySolver++
+		res, _ := ps.wk.check(i.pcWith(differs), nil)
+		switch res {
+		case Sat:
+			ps.discharged++
+		case Unsat:
+			ps.distinctObl++
+			_, model := ps.wk.solver.Check(ps.pc, ps.nondetVars)
+			ps.violations = append(ps.violations, ps.mkViolation("assert", what, model))
+		default:
+			ps.unknown++
+			ps.inconclusive = append(ps.inconclusive, "solver unknown on leak query: "+what)
+		}
+	}
+	for a := 0; a < n; a++ {
+		check(a, -1)
+		for b := a + 1; b < n; b++ {
+			check(a, b)
+		}
+	}
+	ps.notes = appendUnique(ps.notes, fmt.Sprintf("%s: %d transcript bytes, %d window pairs decided (%d concrete interpretations consistent with the path condition; %d pairs went to the solver)", tag, len(tr), pairs, nOK, bySolver))
+	if nOK == 0 {
+		ps.inconclusive = append(ps.inconclusive, tag+": no concrete interpretation satisfied the path condition")
+	}
 }
